@@ -32,7 +32,7 @@ ASSUMPTIONS = ['sources within 0.5 deg of CRVAL so that the pixel-space model an
 MIN_REACH = {'source_finder:SourceFinder.priorized_fit_islands': 1, 'source_finder:SourceFinder._refit_islands': 1}
 MIN_COUNTERS = {'runs_with_sources_narrower_than_the_psf': 2, 'runs_ratio1_with_catalogue_psf_differing_from_beam': 2, 'runs_with_repeated_labels_inside_an_island': 1,
                 'outputs_judged': 100, 'cutout_width_odd': 10, 'cutout_width_even': 10, 'interference_pairs': 3,
-                'runs_over_20_groups': 2, 'file_inputs': 3}
+                'runs_over_20_groups': 2, 'file_inputs': 3, 'runs_polar_field_regroup_on': 4, 'polar_blend_members': 20}
 BATCHES_PER_JOB = 4
 PRIORIZED = 64
 FWHM2CC = 1.0 / (2.0 * np.sqrt(2.0 * np.log(2.0)))
@@ -46,12 +46,14 @@ def sys_path_repo():
 
 
 # ------------------------------------------------------------------------------------------ generator
-def gen_case(rng, n, tier, kind='model'):
+def gen_case(rng, n, tier, kind='model', blend_p=0.2, polar=False):
     proj = str(rng.choice(wz.PROJECTIONS))
     scale = float(rng.uniform(2.0, 8.0) / 3600.0)
     side = int(min(330, max(70, np.sqrt(n) * 42 + 40)))
     rows, cols = side, int(side * rng.uniform(0.8, 1.2))
     dec0 = float(rng.uniform(-70, 70))
+    if polar:
+        dec0 = float(rng.choice([-1, 1]) * rng.uniform(72, 86))
     ra0 = float(rng.choice([0.0, 359.995])) if rng.random() < 0.2 else float(rng.uniform(0, 360))
     crpix = (cols / 2.0 + float(rng.uniform(-10, 10)), rows / 2.0 + float(rng.uniform(-10, 10)))
     beam_px = float(rng.uniform(3.2, 4.5))
@@ -69,7 +71,7 @@ def gen_case(rng, n, tier, kind='model'):
         margin = 2.2 * a / 3600 / scale * FWHM2CC * 2 + 3
         i, j = float(rng.uniform(margin, rows - 1 - margin)), float(rng.uniform(margin, cols - 1 - margin))
         reach = 2.6 * a / 3600 / scale
-        blend = bool(rng.random() < 0.2 and len(placed) > 0)
+        blend = bool(rng.random() < blend_p and len(placed) > 0)
         if blend:
             k = int(rng.integers(0, len(placed)))
             if sum(1 for q in srcs if q['island'] == srcs[k]['island']) >= 5:
@@ -176,6 +178,18 @@ def cases(seed, tier):
         c['regroup'] = False
         c['form'] = 'objects'
         c['stage'] = 1 + i % 3
+        out.append(c)
+    # fields at |dec| 72-86 with many blends and regrouping ON: there an east-west separation in degrees of RA is several times
+    # the angle on the sky, so any flat-sky shortcut in the grouping splits (or merges) blends
+    n_pol = 8 if tier == 'quick' else 80
+    for i in range(n_pol):
+        c = gen_case(rng, int(rng.integers(6, 20)), tier, blend_p=0.5, polar=True)
+        c['regroup'] = True
+        c['ratio'] = None
+        c['form'] = 'objects' if i % 2 else 'csv'
+        c['psf_columns'] = True
+        c['stage'] = 1 + i % 3
+        c['polar'] = True
         out.append(c)
     n_int = 10 if tier == 'quick' else 100
     for i in range(n_int):
@@ -472,6 +486,10 @@ def run(case):
             o.count('runs_ratio1_with_catalogue_psf_differing_from_beam')
         if case.get('small_sources'):
             o.count('runs_with_sources_narrower_than_the_psf')
+        if case.get('polar'):
+            o.count('runs_polar_field_regroup_on')
+            isl = [q['island'] for q in case['sources']]
+            o.count('polar_blend_members', sum(1 for v in isl if isl.count(v) > 1))
         if case.get('dup_labels') and len(set((q.island, q.source) for q in objs)) < len(objs):
             o.count('runs_with_repeated_labels_inside_an_island')
         judge_outputs(o, ctx, case, outs, truth, z, acc)
